@@ -81,3 +81,20 @@ Definition model_opposite (pos : Z -> C3) (m : mesh) : bool :=
 
 Definition model_cells_outward (pos : Z -> C3) (m : mesh) : bool :=
   forallb (cell_outwardb pos) (elems m).
+
+(* implementation facet area a = n/d against the exact |varea2|/2 : 4 a^2 = |A2|^2
+   within 2^-24 relative (areas of facets far from the origin carry |p|/h * 2^-53) *)
+Definition area_ok (A2 : C3) (nd : Z * Z) : bool :=
+  let '(n, d) := nd in
+  let '(x, y, z) := A2 in
+  let aa := x * x + y * y + z * z in
+  (0 <=? n) && (Z.abs (4 * n * n - aa * d * d) * 2 ^ 24 <=? aa * d * d).
+
+Definition check_areas (pos : Z -> C3) (m : mesh) (xs : list (Z * Z)) : bool :=
+  Nat.eqb (length xs) (length (facets m))
+  && forallb (fun fa => area_ok (facet_area2 pos (fst fa)) (snd fa)) (combine (facets m) xs).
+
+(* implementation cell volumes (rows = cells m) against femio's default kernel in the model *)
+Definition check_cell_volumes (pos : Z -> C3) (m : mesh) (vs : list (Z * Z)) : bool :=
+  Nat.eqb (length vs) (length (cells m))
+  && forallb (fun ev => vol_close (elem_vol24 ZOps pos (fst ev)) (snd ev)) (combine (cells m) vs).
